@@ -1022,6 +1022,16 @@ pub fn exec_fb(case: &PCase, sample_closed: bool, fb: &[i64]) -> Trace {
   // everything observable has been recorded: now tear the case down for real (unsubscribing breaks the
   // reference cycles between composite subscriptions and the observers that hold them)
   crate::stamp::set(usize::MAX - 1);
+  // a still subscribed pipeline is failed first: flattening operators keep their queue of waiting inner observables in a
+  // cell that the queued closures point back to - only a terminal empties it (unsubscribing does not), and with queues
+  // of hundreds of boxed pipelines a 20 M case run would otherwise keep tens of GB alive
+  if sub.is_some() || guard.is_some() {
+    crate::run::ignoring_panics(|| {
+      for i in 0..case.kinds.len().max(1) {
+        emit(&env, conv_kind(case.kinds.get(i).cloned().unwrap_or(IKind::Subject)), i, &Ev::Er(E(250)));
+      }
+    });
+  }
   drop(guard);
   if let Some(s) = sub.take() {
     s.unsubscribe();
